@@ -140,6 +140,9 @@ V = [
     ("balance-cutoff", ["C11", "C10"], "BALANCE", "CompositeOperationType.compute_dimensions", [("photon_weave/operation/composite_operation.py", "CompositeOperationType.compute_dimensions", "dim = int(jnp.sum(jnp.array(num_quanta))) + 1", "dim = int(jnp.max(jnp.array(num_quanta))) + 1")]),
     ("balance-same-mode", ["C11"], "BALANCE", "CompositeOperationType.compute_operator", [("photon_weave/operation/composite_operation.py", "CompositeOperationType.compute_operator", "b = creation_operator(dimensions[1])", "b = creation_operator(dimensions[0])")]),
     # ---------------------------------------------------------------- LAYOUT / ENVAXIS / second-round rules
+    ("apply-lit-transposed", ["C01"], "SANDWICH-LIT", "Envelope.apply_operation", [(S + "envelope.py", "Envelope.apply_operation", "\"ij,jkl->ikl\"", "\"ji,jkl->ikl\"")]),
+    ("apply-lit-own-state", ["C01"], "SANDWICH-LIT", "CustomState.apply_operation", [(S + "custom_state.py", "CustomState.apply_operation", "\"ij,jk->ik\"", "\"ij,ik->jk\"")]),
+    ("sandwich-lit-transposed-both", ["C01"], "SANDWICH-LIT", "Polarization.apply_operation", [(S + "polarization.py", "Polarization.apply_operation", "\"ca,ab,db->cd\"", "\"ac,ab,bd->cd\"")]),
     ("layout-missing-transpose-back", ["C01"], "LAYOUT", "Envelope.apply_operation", [(S + "envelope.py", "Envelope.apply_operation", "            ps = ps.transpose([0, 2, 1, 3])\n            ps = ps.reshape(self.dimensions, self.dimensions)", "            ps = ps.reshape(self.dimensions, self.dimensions)")]),
     ("layout-kraus-no-transpose", ["C06"], "LAYOUT", "Envelope.apply_kraus", [(S + "envelope.py", "Envelope.apply_kraus", "            self.state = resulting_state.transpose([0, 2, 1, 3]).reshape(", "            self.state = resulting_state.reshape(")]),
     ("layout-blocked-literal", ["C06"], "LAYOUT", "Envelope.apply_kraus", [(S + "envelope.py", "Envelope.apply_kraus", "            ps = self.state.reshape([*reshape_shape, *reshape_shape]).transpose(\n                [0, 2, 1, 3]\n            )\n            resulting_state = jnp.zeros_like(ps)", "            ps = self.state.reshape([*reshape_shape, *reshape_shape])\n            resulting_state = jnp.zeros_like(ps)")]),
@@ -387,15 +390,20 @@ def _apply_patch(tmp: pathlib.Path, patch: str) -> Optional[str]:
 
 def run_selftest(pid: str, seed: int = 0, only: Optional[List[str]] = None) -> dict:
     jobs = []
+    if pid == "all":
+        served = None
+    else:
+        from .props import scope
+        served = scope(pid)
     for kind, vid, payload in _patch_variants():
         if only is not None and vid not in only:
             continue
-        if kind == "seed" and (pid == "all" or pid in payload[1]):
+        if kind == "seed" and (served is None or served & set(payload[1])):
             jobs.append((kind, vid, payload))
         if kind == "refactor":
             jobs.append((kind, vid, payload))
     for v in V:
-        if pid == "all" or pid in v[1]:
+        if served is None or served & set(v[1]):
             if only is None or v[0] in only:
                 jobs.append(("break", v[0], v))
     for nname in NEUTRAL:
